@@ -314,8 +314,10 @@ func (w *worldA) c16List(nd *simNode, backups map[uint32]uint64, via string) {
 		if !ok {
 			r.Fail("backup-list", "the list shows backup %d, which does not exist (existing: %v)", bi.ID, c16IDs(backups))
 		}
-		if n != c16Unknown && n > 0 && bi.Metadata != fmt.Sprint(n-1) {
-			r.Fail("backup-version", "backup %d was taken at version %d but records %q", bi.ID, n-1, bi.Metadata)
+		// (n-1 wraps for a backup of an empty log: the recorded version plus one is
+		// the number of events, in uint64 arithmetic, also when that number is 0)
+		if n != c16Unknown && bi.Metadata != fmt.Sprint(n-1) {
+			r.Fail("backup-version", "backup %d was taken of a log of %d events but records version %q (recorded version + 1 must be the number of events)", bi.ID, n, bi.Metadata)
 		}
 	}
 	r.Count("oracle.list_checked")
@@ -385,7 +387,7 @@ func (w *worldA) c16Restore(nd *simNode, id uint32, n uint64, how string, more i
 		r.Fail("restored-version", "backup %d was taken at %d events; the node restored from it holds %d", id, n, got)
 	}
 	for _, bi := range nd.rn.ListBackups() {
-		if uint32(bi.ID) == id && n > 0 && bi.Metadata != fmt.Sprint(n-1) {
+		if uint32(bi.ID) == id && bi.Metadata != fmt.Sprint(n-1) {
 			r.Fail("backup-version", "backup %d records version %s but restores to a log of %d events (version %d)", id, bi.Metadata, n, n-1)
 		}
 	}
